@@ -1025,6 +1025,23 @@ def gen_rawlit_tail(cat, rng, thorough):
                         seen.add(key)
                         cat.add_frame(C, 'lastll=%d lh=%d seqsec=%d k=%d' % (lastll, lh, seqsec, k), fr, window=(6, 0), checksum=False)
 
+def gen_laps(cat, rng, thorough):
+    """window 1 KiB, k run-length blocks of 1 KiB each (a streaming decoder's output ring of window + 2 blocks + 64 bytes goes round once, twice, three
+    times), then one compressed block whose single match reaches back 1 / 700 / 1024 bytes: after several laps the retained history is still exactly the
+    last window, for valid frames and (through the substitutions of C03) for offsets beyond it"""
+    C = 'laps'
+    for k in (3, 4, 6, 7, 9, 10):
+        for off in (1, 700, 1023, 1024):
+            fr = Frame()
+            for b in range(k):
+                fr.rle(0x30 + b, 1024)
+            lits = bytes((0x61 + (i * 5) % 23) for i in range(24))
+            try:
+                fr.compressed(lits, [(8, 16, off + 3)], lit={'type': 'raw', 'size_format': None})
+            except AssertionError:
+                continue
+            cat.add_frame(C, 'rle blocks=%d then match offset=%d' % (k, off), fr, window=W1K, checksum=False)
+
 # ---- B. block lists ---------------------------------------------------------
 def _add_block(fr, kind, rng, n=24):
     if kind == 'raw': fr.raw(sample_text(rng, n))
@@ -2016,7 +2033,7 @@ def gen_random_trees(cat, rng, thorough):
 # main
 # --------------------------------------------------------------------------
 GENERATORS = [gen_headers, gen_blocks, gen_literals, gen_seq_nbseq, gen_seq_modes, gen_seq_tables,
-              gen_seq_lengths, gen_seq_offsets, gen_skippable, gen_dict_frames, gen_pairs, gen_random_trees, gen_rawlit_tail]
+              gen_seq_lengths, gen_seq_offsets, gen_skippable, gen_dict_frames, gen_pairs, gen_random_trees, gen_rawlit_tail, gen_laps]
 
 def build_catalogue(tier='quick'):
     cat = Catalogue()
